@@ -343,6 +343,11 @@ func (q *Queue) run(highestKey uint64) {
 			// Ensure cursor moves past deleted range
 			if err == nil && nextFrom != 0 && nextFrom <= req.idx {
 				nextFrom = req.idx + 1
+				// Never move the cursor beyond what has been stored: an index in
+				// (highestKey, req.idx] can still be enqueued and must be emitted.
+				if nextFrom > highestKey+1 {
+					nextFrom = highestKey + 1
+				}
 			}
 			req.respChan <- err
 
